@@ -193,4 +193,22 @@ theorem C15_mrca_lookup (H : Ham) (g1 g2 : Taxon) (hne : g1 ≠ g2) (ht : mrca2 
   simp only [mrca, List.foldl]
   exact C15_ancestral_by_taxon H _ ht
 
+/-- extant genomes by name: every declared species is returned by its name (species names pairwise distinct) -/
+theorem C15_extant_by_name (H : Ham) (hn : (H.species.map (·.1)).Nodup) (p : String × Taxon) (hp : p ∈ H.species) :
+    H.extantGenomeByName p.1 = .ok p.2 := by
+  unfold Ham.extantGenomeByName
+  rw [find_nodup_key (·.1) H.species hn p hp]
+
+/-- ... and an unknown species name raises KeyError -/
+theorem C15_extant_unknown (H : Ham) (s : String) (h : s ∉ H.species.map (·.1)) :
+    H.extantGenomeByName s = .error .key := by
+  unfold Ham.extantGenomeByName
+  have : H.species.find? (fun x => x.1 == s) = none := by
+    rw [List.find?_eq_none]
+    intro x hx
+    simp only [beq_iff_eq]
+    intro e
+    exact h (List.mem_map.mpr ⟨x, hx, e⟩)
+  rw [this]
+
 end Pyham
